@@ -35,6 +35,7 @@ QUICK: list[tuple[str, str, int, int, str, str, int, dict[str, Any]]] = [
     ('circuit', '', 4, 1, 'grid', 'isw_rz_rx', 1, dict(depth=8, workers=3)),
     ('circuit', '', 2, 1, 'line', 'rigetti', 1, dict(depth=5, workers=2)),
     ('circuit', '', 3, 0, 'ring', 'cx_u3', 1, dict(depth=6, measure='end', barriers=1, workers=2)),
+    ('circuit', '', 3, 0, 'line', 'cz_u3', 3, dict(depth=5, p3=0.0, workers=4)),
     ('unitary', 'haar', 2, 0, 'line', 'cz_rz_sx', 1, dict(workers=2)),
     ('unitary', 'clifford', 2, 0, 'line', 'sqisw_u3', 2, dict(workers=2)),
     ('unitary', 'haar', 1, 0, 'line', 'isw_rz_rx', 1, dict(workers=1)),
